@@ -213,7 +213,7 @@ Section Main.
       | Err _ => DErr DParse
       | Ok (num, typ, r) =>
         if msg_max_num <? num then DErr DParse
-        else if typ =? 4 then (if num =? grp then DOk (acc, r) else DErr DParse)
+        else if (typ =? 4) && negb slow then (if num =? grp then DOk (acc, r) else DErr DParse)
         else
           let tagraw := if slow then firstn (length bs - length r) bs else enc_tag num typ in
           match msg_step slow md (dm d) (dt_dsub2 d) tagraw num typ r acc with
@@ -243,7 +243,7 @@ Section Main.
     destruct (dec_tag bs) as [[[num typ] r]|e] eqn:Et; [|split; [discriminate|intros _ _; discriminate]].
     pose proof (vp_dec_tag_len _ _ _ _ Et) as Hr. pose proof (dt_dec_tag_suffix _ _ _ _ Et) as Hsf.
     destruct (msg_max_num <? num); [split; [discriminate|intros _ _; discriminate]|].
-    destruct (typ =? 4).
+    destruct ((typ =? 4) && negb slow).
     { destruct (num =? grp); [exact Hsf|split; [discriminate|intros _ _; discriminate]]. }
     cbv zeta.
     pose proof (dt_step slow S W HW md Hin (dm d) (dt_dsub2 d) Hsub Hsub2
